@@ -192,12 +192,19 @@ def update_chain(st, start, n):
     d = pool.fresh_dir("c17u")
     os.chdir(d)
     # (YYYY.BUILD: a version that reads like a decimal number; once in bumpver.toml, once unquoted in setup.cfg)
-    for pattern, prefix, fmt in (("vYYYY.BUILD", "v2020.", "toml"), ("YYYY.BLD", "2020.", "toml"), ("YYYY.BUILD", "2020.", "toml"), ("YYYY.BUILD", "2020.", "ini")):
+    # (toml-glob: the config file is named in file_patterns only through `*.toml`, for another line; current_version relies on the implicit entry)
+    for pattern, prefix, fmt in (("vYYYY.BUILD", "v2020.", "toml"), ("YYYY.BLD", "2020.", "toml"), ("YYYY.BUILD", "2020.", "toml"), ("YYYY.BUILD", "2020.", "ini"),
+                                 ("vYYYY.BUILD", "v2020.", "toml-glob")):
         if pattern == "YYYY.BLD" and (start.startswith("0") and len(start) > 1):
             continue
         cur = prefix + start
         world.clear_dir(".")
-        if fmt == "toml":
+        if fmt == "toml-glob":
+            cfg = (f'release = "{cur}"\n\n[bumpver]\ncurrent_version = "{cur}"\nversion_pattern = "{pattern}"\ncommit = false\n\n[bumpver.file_patterns]\n'
+                   '"*.toml" = [\'^release = "{version}"\']\n"a.txt" = ["ver={version};"]\n')
+            world.write_tree({"bumpver.toml": cfg.encode(), "a.txt": f"ver={cur};\n".encode()})
+            pattern = pattern + " (config by glob)"
+        elif fmt == "toml":
             cfg = f'[bumpver]\ncurrent_version = "{cur}"\nversion_pattern = "{pattern}"\ncommit = false\n\n[bumpver.file_patterns]\n"a.txt" = ["ver={{version}};"]\n'
             world.write_tree({"bumpver.toml": cfg.encode(), "a.txt": f"ver={cur};\n".encode()})
         else:
